@@ -51,3 +51,39 @@ PROPS["C18"] = dict(
     explanation="All 256 attribute bytes x 3 modes, all (fg,bg,blink,bold) tuples expressible in a mode, and the "
                 "code-page tables (symbolic index pairs) are decided exhaustively by CBMC on the real functions.",
 )
+
+TERM_TRUST = COMMON_TRUST + [
+    "S1/S2: assumed specs of std functions in vx/prelude/std_shims.rs (max/min shims, i32::saturating_add/sub, char::from_u32)",
+    "S4: derived Clone of Line is structural (external_body impl in vx/prelude/term_specs.rs)",
+    "S6: std's blanket impl<T> From<T> for T is the identity (axiom_position_into_self, axiom_size_into_self)",
+    "O1: the statement `self.sixels.retain(..float geometry..)` in Layer::set_char is replaced by a stub with an assumed frame (only `sixels` changes)",
+    "Buffer::stop_sixel_threads (VecDeque<JoinHandle>::clear): assumed frame contract; Buffer::get_char / get_line_count not used here (assumed-contract stubs)",
+    "sizes and coordinates are capped at 2^29 and grow by at most 512 per character: the proof covers every stream of up to 2^20 characters from any state whose sizes are below 2^28 (i32 arithmetic genuinely overflows after about 2^31 line feeds)",
+    "reachable-state fact used: OriginMode::WithinMargins is never selected by any emulation (the DECOM arm is commented out in ansi/mod.rs)",
+]
+TERM_REMAINDER = [
+    "ansi::Parser::print_char dispatch skeleton and its arms (unit ansi_cmds covers the command methods listed under functions_under_contract); DCS / OSC / macro / font-selection sub-languages; sixel decode threads",
+    "emulations other than those listed under functions_under_contract",
+]
+
+PROPS["C01"] = dict(
+    units=["term_core"],
+    trusted_base=TERM_TRUST, unverified_remainder=TERM_REMAINDER,
+    explanation="Every screen operation the emulations are built from (Line, Layer, TerminalState, Buffer geometry, the Caret "
+                "movements and Buffer::print_char / scroll / clear / insert / delete) is proved panic-free (index, overflow, "
+                "unwrap, assert, clamp preconditions) from the inductive state invariant term_inv, and proved to re-establish it "
+                "(term_step) with a bounded growth per character.",
+)
+PROPS["C09"] = dict(
+    units=["term_core"],
+    trusted_base=TERM_TRUST, unverified_remainder=TERM_REMAINDER + ["Viewdata / Mode 7 fixed-grid frame conditions (unit small_emus)"],
+    explanation="caret_in_view (column in 0..width, row within the last `height` rows) is a postcondition of every clamping "
+                "operation (limit_caret_pos and everything that ends in it, clear_screen, ff) and is preserved by the relative "
+                "moves (lf, bs, print_char, print_value).",
+)
+PROPS["C03"] = dict(
+    units=["term_core"],
+    trusted_base=TERM_TRUST, unverified_remainder=TERM_REMAINDER + ["macro recursion, hex macros, sixel repeat/raster, font loaders (units pending)"],
+    explanation="Every loop of the screen operations has a decreases measure (termination proved) and iterates over ranges bounded "
+                "by the margins / screen / row count, not by numeric parameters; erase_charcter's count is proved clamped to the width.",
+)
